@@ -213,7 +213,13 @@ func (s *state) node(depth int) *Node {
 				if len(s.caps) > 0 && s.rng.Intn(2) == 0 {
 					return &Node{Kind: KCondRef, Group: -1 - s.rng.Intn(len(s.caps)), Subs: []*Node{s.node(depth - 1), s.node(depth - 1)}}
 				}
-				return &Node{Kind: KCondExpr, Subs: []*Node{s.node(depth - 1), s.node(depth - 1), s.node(depth - 1)}}
+				ce := &Node{Kind: KCondExpr, Subs: []*Node{s.node(depth - 1), s.node(depth - 1), s.node(depth - 1)}}
+				if s.rng.Intn(3) == 0 {
+					// a lookaround written directly as the condition, (?(?=x)yes|no), followed by a capture
+					ce.Subs[0] = &Node{Kind: KLook, Behind: s.rng.Intn(3) == 0, Neg: s.rng.Intn(3) == 0, Subs: []*Node{ce.Subs[0]}}
+					ce.Style = 1
+				}
+				return ce
 			}
 		default:
 			if s.cfg.Balancing && s.rng.Intn(3) == 0 {
